@@ -2,6 +2,7 @@ package props
 
 import (
 	"bytes"
+	"crypto/sha256"
 	"encoding/json"
 	"fmt"
 	"io"
@@ -240,12 +241,14 @@ func checkC14(c caseC14, rec *ev.Rec) *ev.Failure {
 	})
 	// sequential reference run (each writer twice: determinism)
 	want := make([]result, len(c.Jobs))
+	digest := sha256.New()
 	for i, j := range c.Jobs {
 		comp, err := compressJob(j, datas[j.Data], shared)
 		if err != nil {
 			rec.Class("sequential_write_fails(other property)")
 			return nil
 		}
+		digest.Write(comp)
 		again, err := compressJob(j, datas[j.Data], shared)
 		if err != nil || !bytes.Equal(again, comp) {
 			return ev.Fail(fmt.Sprintf("job %d (%s): compressing the same input twice gives different output (%d vs %d bytes)", i, j.Kind, len(comp), len(again)), "result", "nondeterministic_sequential", "kind", j.Kind)
@@ -274,6 +277,9 @@ func checkC14(c caseC14, rec *ev.Rec) *ev.Failure {
 				"result", "concurrent_differs", "kind", j.Kind)
 		}
 	}
+	// "identical bytes on every run": the driver compares this digest between
+	// two processes that run the same cases
+	rec.CaseDigest(c, fmt.Sprintf("%x", digest.Sum(nil)))
 	if *shared != (lzma.Properties{LC: 2, LP: 1, PB: 3}) {
 		return ev.Fail("the shared Properties value was modified", "result", "shared_modified")
 	}
@@ -311,7 +317,7 @@ func dataLens(d [][]byte) []int {
 
 func TestC14(t *testing.T) {
 	rec := ev.New("C14", "exploration")
-	rec.Rule = "built with -race: rapid draws 2-9 jobs (xz / LZMA / LZMA2 writer or reader, configuration, both match finders), some sharing read-only inputs (the same *lzma.Properties, the same data slice, the same compressed bytes), GOMAXPROCS in {1,2,4,16} and runtime.Gosched() points inside the sink / source wrappers; the jobs run sequentially (each writer twice: determinism), then concurrently from a common start signal; oracle: no race-detector report (GORACE=halt_on_error: the driver maps the report to a violation carrying the job list), every concurrent result byte-identical to its sequential result, shared inputs unmodified; non-trivial = >= 2 jobs with both match finders present; distinct = hash of the case"
+	rec.Rule = "built with -race: rapid draws 2-9 jobs (xz / LZMA / LZMA2 writer or reader, configuration, both match finders), some sharing read-only inputs (the same *lzma.Properties, the same data slice, the same compressed bytes), GOMAXPROCS in {1,2,4,16} and runtime.Gosched() points inside the sink / source wrappers; the jobs run sequentially (each writer twice: determinism), then concurrently from a common start signal; oracle: no race-detector report (GORACE=halt_on_error: the driver maps the report to a violation carrying the job list), every concurrent result byte-identical to its sequential result, shared inputs unmodified; one shard runs in two processes and the compressed outputs of every case must be identical in both (output identical on every run); non-trivial = >= 2 jobs with both match finders present; distinct = hash of the case"
 	rec.Assumptions = []string{"interleavings are sampled by the Go scheduler, not enumerated", "the race detector is happens-before based: unsynchronised shared state is reported when both accesses execute"}
 	drive(t, rec, drawC14, checkC14)
 }
